@@ -158,8 +158,8 @@ def run(ctx):
     ctx.rule = ("model: TLC enumerates (a) the gain machine: 64 levels x (64 absolute + 41 delta) actions, every (state, action) pair; "
                 "(b) every lag index in -40..max+40 x contour x {8,12,16} kHz x {2,4} sub-frames, and the lag-index accumulator over a "
                 "3-frame packet; (c) both NLSF codebooks x all 32 first-stage vectors x residual families (zero, all/alternating/paired/"
-                "single/split extremes at +-10,+-4,+-1; all sign patterns {-10,10}^10 for NB/MB; for WB sign patterns on each half and on "
-                "even/odd coefficients [both tiers], and in the thorough tier all {-10,10}^16 for every 8th WB first-stage vector plus {-10,0,10}^10 for every 8th NB/MB one (which ones: VERIF_SEED % 8)). "
+                "single/split extremes at +-10,+-4,+-1; all sign patterns {-10,10}^10 for NB/MB; for WB sign patterns on each half; "
+                "in the thorough tier also WB sign patterns on the even/odd coefficients, all {-10,10}^16 for every 8th WB first-stage vector plus {-10,0,10}^10 for every 8th NB/MB one (which ones: VERIF_SEED % 8)). "
                 "implementation: hx_silk records silk_gains_dequant (all 6720 single steps, random chains), silk_gains_quant+dequant "
                 "(raw-gain grid, random frames), silk_decode_pitch (whole index domain), silk_NLSF_decode+NLSF2A (first-stage x extremes, "
                 "random residuals in +-10), silk_decode_parameters (random chained frames), silk_decode_indices on random range-coder input "
@@ -232,8 +232,8 @@ def run(ctx):
     # ---- 2. bind to the implementation -------------------------------------------------------
     s = ctx.seed
     if tier == "quick":
-        jobs = [("gains", [s, 2000]), ("gquant", [s + 1, 4000]), ("pitch", []), ("nlsf", [s + 2, 6, 0]),
-                ("stab", [s + 3, 3000]), ("dparams", [s + 4, 250]), ("indices", [s + 5, 300]),
+        jobs = [("gains", [s, 2000]), ("gquant", [s + 1, 4000]), ("pitch", []), ("nlsf", [s + 2, 4, 0]),
+                ("stab", [s + 3, 3000]), ("dparams", [s + 4, 200]), ("indices", [s + 5, 250]),
                 ("pitchenc", [s + 6, 4000]), ("nlsfenc", [s + 7, 2000])]
     else:
         jobs = [("gains", [s, 30000]), ("gquant", [s + 1, 60000]), ("pitch", []), ("nlsf", [s + 2, 120, 1200]),
